@@ -7,6 +7,10 @@ statement when the parts involved are free of calls):
 * ``isinstance(v, (A, B))``                   ->  ``isinstance(v, A) or isinstance(v, B)``   (``v`` a name / attribute)
 * ``any(P(m) for m in (c1, c2))``             ->  ``P(c1) or P(c2)``   (``all`` -> ``and``; the iterable is a literal
   tuple / list of constants, or a module-level name bound once to such a tuple)
+* ``for a, b in ((x1, y1), (x2, y2)): body``   ->  ``body[a:=x1, b:=y1]`` ; ``body[a:=x2, b:=y2]``   (a table-driven loop:
+  the target is a tuple of names, the iterable a literal of at most four tuples of names / attributes / constants --
+  written in place, bound once to a local just for the loop, or a module-level constant --, the body has no
+  ``break`` / ``continue`` of this loop and does not re-bind the targets, no ``else``)
 * ``S[ A if t else B ]`` (assignment, return, expression statement; ``t`` free of calls; the only conditional
   expression of the statement; an arm performs a call or the chosen value is the argument of a call)
                                               ->  ``if t: S[A]`` ``else: S[B]``
@@ -32,7 +36,7 @@ def _const_tuples(tree):
             bound.setdefault(tg, []).append(val)
     out = {}
     for name, vals in bound.items():
-        if len(vals) == 1 and isinstance(vals[0], ast.Tuple) and vals[0].elts and all(isinstance(e, ast.Constant) for e in vals[0].elts):
+        if len(vals) == 1 and isinstance(vals[0], ast.Tuple) and vals[0].elts and all(isinstance(e, ast.Constant) or (isinstance(e, ast.Tuple) and e.elts and all(isinstance(x, ast.Constant) for x in e.elts)) for e in vals[0].elts):
             out[name] = vals[0]
     # any other store to the name (global statement + assignment, del, augmented) disqualifies it
     for sub in ast.walk(tree):
@@ -135,9 +139,71 @@ def _leading(e):
             return e
 
 
+def _simple_value(e):
+    if isinstance(e, ast.Constant):
+        return True
+    while isinstance(e, ast.Attribute):
+        e = e.value
+    return isinstance(e, ast.Name)
+
+
+def _own_jumps(stmts):
+    """a ``break`` / ``continue`` that belongs to the loop whose body ``stmts`` is"""
+    for s in stmts:
+        if isinstance(s, (ast.Break, ast.Continue)):
+            return True
+        if isinstance(s, (ast.For, ast.While, ast.AsyncFor)):
+            if _own_jumps(s.orelse):
+                return True
+            continue
+        if isinstance(s, (ast.FunctionDef, ast.AsyncFunctionDef, ast.ClassDef)):
+            continue
+        for field in ("body", "orelse", "finalbody"):
+            sub = getattr(s, field, None)
+            if isinstance(sub, list) and sub and isinstance(sub[0], ast.stmt) and _own_jumps(sub):
+                return True
+        for h in getattr(s, "handlers", []) or []:
+            if _own_jumps(h.body):
+                return True
+    return False
+
+
 class _Stmts:
-    def __init__(self):
+    def __init__(self, consts=None):
         self.count = 0
+        self.consts = consts or {}
+        self.local_tables = {}
+
+    def unroll(self, st):
+        """the copies of the body of a table-driven loop, or None"""
+        if st.orelse or not isinstance(st.target, ast.Tuple) or not all(isinstance(t, ast.Name) for t in st.target.elts):
+            return None
+        it = st.iter
+        if isinstance(it, ast.Name):
+            it = self.local_tables.get(it.id) or self.consts.get(it.id)
+            if it is not None and not all(isinstance(e, ast.Tuple) and all(isinstance(x, ast.Constant) for x in e.elts) for e in it.elts):
+                it = None
+        if not isinstance(it, (ast.Tuple, ast.List)) or not (1 <= len(it.elts) <= 4):
+            return None
+        names = [t.id for t in st.target.elts]
+        for e in it.elts:
+            if not isinstance(e, (ast.Tuple, ast.List)) or len(e.elts) != len(names) or not all(_simple_value(x) for x in e.elts):
+                return None
+        if _own_jumps(st.body):
+            return None
+        for sub in ast.walk(ast.Module(body=st.body, type_ignores=[])):
+            if isinstance(sub, ast.Name) and sub.id in names and isinstance(sub.ctx, (ast.Store, ast.Del)):
+                return None
+            if isinstance(sub, (ast.FunctionDef, ast.AsyncFunctionDef, ast.Lambda, ast.ClassDef)):
+                return None  # a closure over the loop variables sees the last value, a copy would see its own
+        out = []
+        for e in it.elts:
+            body = copy.deepcopy(st.body)
+            for nm, val in zip(names, e.elts):
+                body = [_Subst(nm, val).visit(s) for s in body]
+            out.extend(body)
+        self.count += 1
+        return out
 
     def block(self, body):
         out = []
@@ -168,6 +234,13 @@ class _Stmts:
                     st.test = _Replace(lead, load).visit(st.test)
                 pre.append(assign)
                 self.count += 1
+        if isinstance(st, ast.For):
+            copies = self.unroll(st)
+            if copies is not None:
+                return pre + copies
+        if isinstance(st, ast.Assign) and len(st.targets) == 1 and isinstance(st.targets[0], ast.Name) and isinstance(st.value, ast.Tuple):
+            # a table bound to a local just for the loop that follows
+            self.local_tables[st.targets[0].id] = st.value
         if isinstance(st, (ast.Assign, ast.AnnAssign, ast.AugAssign, ast.Return, ast.Expr)) and getattr(st, "value", None) is not None:
             return pre + self.split(st, _MAX_SPLIT)
         return pre + [st]
@@ -205,14 +278,16 @@ class _Stmts:
 
 def apply(tree):
     """Rewrite ``tree`` in place; returns the number of rewrites."""
-    ex = _Exprs(_const_tuples(tree))
+    consts = _const_tuples(tree)
+    ex = _Exprs(consts)
     ex.visit(tree)
-    sm = _Stmts()
+    sm = _Stmts(consts)
 
     def top(body):
         # module and class level statements stay as they are (constants, version guards); function bodies are rewritten
         for st in body:
             if isinstance(st, (ast.FunctionDef, ast.AsyncFunctionDef)):
+                sm.local_tables = {}
                 st.body = sm.block(st.body)
             elif isinstance(st, ast.ClassDef):
                 top(st.body)
